@@ -41,6 +41,7 @@ fn generate_book_data() -> Result<(), BuildError> {
             book = book_contents
                 .trim()
                 .split("\n\n")
+                .map(|c| c.trim())
                 .filter(|c| c.starts_with("1."))
                 .try_fold(book, |mut book, movetext| {
                     let moves = BookParser::parse_movetext(movetext, &hasher)
